@@ -586,7 +586,9 @@ def job_plan(pid, modules, theorems, rule_extra, partial=""):
                 rule="a case is one script (behaviour list + operation list); non-trivial = at least one child is spawned; distinct by (script body, implementation trace). " + rule_extra,
                 assumptions=["tokio: unbounded mpsc is FIFO, select! (biased) polls in order, paused-clock timers fire in deadline order — modelled; the eager scheduler of the model is the paused current-thread runtime of the harness",
                              "process-wrap child (wait/kill/signal) is replaced by a scripted child installed through the public spawn hook; real processes are exercised by C18/C08 streams only",
-                             "Relaxed atomics in flag.rs are modelled as sequentially consistent"],
+                             "Relaxed atomics in flag.rs are modelled as sequentially consistent",
+                             "in the Lean model kill() and signal() of a child always succeed (spawn may fail); failing kill / signal calls are exercised on the real job task by the fault scripts of the stream and judged by the trace-level oracles only",
+                             "a second sender on another thread is modelled by Op.inject (a send landing between a control's dequeue and the next recv); finer interleavings inside one control's handling do not exist in the code (no await between dequeue and the state change except the child's own kill/wait)"],
                 partial=partial)
 
 PLANS["C04"] = job_plan("C04", ["Wx.Job.C04Sim"], ["Jm.c04", "Jm.inv_runOps", "Jm.inv_stepOp"], "Oracle: at most one spawned-and-unreaped child at every point of the implementation trace.")
